@@ -1,14 +1,69 @@
-"""Scan of the crate's source for fallible functions: every `fn` (public or in a trait impl)
-whose name starts with `try_` or whose return type is `Option<…>` / `Result<…>`.
-Keys are `<file>::<name>#<k>` (k-th function of that name in the file, in source order), so that
-they do not move with line numbers."""
+"""Scan of the crate's source for the PUBLIC fallible surface: every function whose name starts
+with `try_` or whose return type is `Option<…>` / `Result<…>` and that is either a `pub fn`, a
+method of a trait impl (`impl Trait for Type`) or a method declared in a `pub trait`.  Private and `pub(crate)` functions are no API: a
+maintainer may rename, split or merge them freely; they are only counted (`private` in the
+result), never keyed.
+
+Keys are `<file>::<name>#<k>` — the k-th PUBLIC-surface function of that name in the file, in
+source order — so that they move neither with line numbers nor with private helpers."""
 import os
 import re
 
 
-def scan(repo):
+def _body_start(s2, i):
+    """index of the `{` opening the body of the item whose header starts at i: the first `{` outside
+    `<…>`, `[…]`, `(…)`; None if a `;` ends the item first"""
+    angle = square = paren = 0
+    while i < len(s2):
+        c = s2[i]
+        if c == "-" and s2[i:i + 2] == "->":
+            i += 2
+            continue
+        if c == "<":
+            angle += 1
+        elif c == ">":
+            angle = max(0, angle - 1)
+        elif c == "[":
+            square += 1
+        elif c == "]":
+            square -= 1
+        elif c == "(":
+            paren += 1
+        elif c == ")":
+            paren -= 1
+        elif angle == 0 and square == 0 and paren == 0:
+            if c == "{":
+                return i
+            if c == ";":
+                return None
+        i += 1
+    return None
+
+
+def _impl_blocks(s2):
+    """[(start, end, is_public_trait_surface)] of every `impl … { … }` block (trait impls) and
+    every `pub trait … { … }` declaration, brace matched"""
+    blocks = []
+    for m in re.finditer(r"\bimpl\b|\bpub\s+(?:unsafe\s+)?trait\b", s2):
+        j = _body_start(s2, m.end())
+        if j is None:
+            continue
+        if m.group(0).startswith("pub"):
+            is_trait = True
+        else:
+            head = re.split(r"\bwhere\b", s2[m.end():j])[0]
+            is_trait = re.search(r"\bfor\s+[^<\s]", head) is not None
+        depth, i = 1, j + 1
+        while i < len(s2) and depth > 0:
+            depth += {"{": 1, "}": -1}.get(s2[i], 0)
+            i += 1
+        blocks.append((j, i, is_trait))
+    return blocks
+
+
+def scan(repo, with_private=False):
     root = os.path.join(repo, "src")
-    found = []
+    found, private = [], []
     for dp, _dn, fns in os.walk(root):
         for f in sorted(fns):
             if not f.endswith(".rs"):
@@ -21,6 +76,7 @@ def scan(repo):
             # blank out comments (keeping the line structure)
             s2 = re.sub(r"/\*.*?\*/", lambda m: "\n" * m.group(0).count("\n"), s, flags=re.S)
             s2 = re.sub(r"//[^\n]*", "", s2)
+            blocks = _impl_blocks(s2)
             counts = {}
             for m in re.finditer(r"(\bpub(?:\([a-z]+\))?\s+)?(?:unsafe\s+)?\bfn\s+(\w+)\s*(<[^{;(]*>)?\s*\(", s2):
                 i, depth = m.end(), 1
@@ -32,22 +88,29 @@ def scan(repo):
                     j += 1
                 ret = " ".join(s2[i:j].split("where")[0].split())
                 name = m.group(2)
-                k = counts.get(name, 0)
-                counts[name] = k + 1
                 if not (name.startswith("try_") or re.match(r"->\s*(Option|Result)<", ret)):
                     continue
-                vis = (m.group(1) or "").strip()
-                line = s2.count("\n", 0, m.start()) + 1
-                # test functions and fns nested in #[test] modules are not API
                 before = s2[max(0, m.start() - 200):m.start()]
                 if "#[test]" in before:
                     continue
+                vis = (m.group(1) or "").strip()
+                line = s2.count("\n", 0, m.start()) + 1
+                enclosing = [b for b in blocks if b[0] < m.start() < b[1]]
+                in_trait_impl = bool(enclosing) and max(enclosing, key=lambda b: b[0])[2]
+                kind = "pub" if vis == "pub" else ("trait" if (in_trait_impl and vis == "") else "private")
+                if kind == "private":
+                    private.append({"file": rel, "line": line, "name": name, "vis": vis or "-", "returns": ret[:90]})
+                    continue
+                k = counts.get(name, 0)
+                counts[name] = k + 1
                 found.append({"key": f"{rel}::{name}#{k}", "file": rel, "line": line, "name": name,
-                              "public": vis == "pub", "vis": vis, "returns": ret[:90]})
-    return found
+                              "public": vis == "pub", "kind": kind, "returns": ret[:90]})
+    return (found, private) if with_private else found
 
 
 if __name__ == "__main__":
     import sys
-    for e in scan(sys.argv[1] if len(sys.argv) > 1 else "/repo"):
-        print(e["key"], e["line"], e["vis"] or "-", e["returns"])
+    fs, pr = scan(sys.argv[1] if len(sys.argv) > 1 else "/repo", with_private=True)
+    for e in fs:
+        print(e["key"], e["line"], e["kind"], e["returns"])
+    print(f"# {len(fs)} public-surface fallible functions, {len(pr)} private / pub(crate) ones (not keyed)")
